@@ -57,3 +57,37 @@ def test_hang_is_detected():
     from mc.explore_choice import Ctx
     status, val, sched = run_schedule(Ctx([]), body2)
     assert status == "hang"
+
+
+def putter(q):
+    for i in range(3):
+        q.put(i)
+    return "done"
+
+
+def test_parent_side_interrupt_is_injected_at_the_kth_blocking_get():
+    from mc import explore_sched as ES
+    from mc.explore_choice import Ctx
+
+    got = []
+
+    def body3():
+        with ms._ignore_sigint_manager() as manager, ms._pool_context_manager(1) as pool:
+            q = manager.Queue()
+            q.name = "iter_queue"
+            res = pool.starmap_async(putter, [(q,)])
+            try:
+                for _ in range(3):
+                    got.append(q.get())
+            except KeyboardInterrupt:
+                got.append("interrupted")
+            res.get()
+        return list(got)
+
+    ES.PARENT_FAULT.update(label="iter_queue.get", k=1, count=0, fired=False)
+    try:
+        status, val, sched = run_schedule(Ctx([]), body3)
+    finally:
+        ES.PARENT_FAULT.update(label=None, k=None, count=0, fired=False)
+    assert status == "ok", (status, val)
+    assert val == [0, "interrupted"]          # the second blocking get of the parent is interrupted
